@@ -112,3 +112,13 @@ ASSUMPTIONS = ["precondition: `next` is well formed (every link points to a row 
                "precondition from call sites: remaining >= 1 (limit = batch_size >= 1), 1 <= start <= len"]
 NOT_COVERED = ["hashbrown::HashTable lookups (outside Verus; bounded Kani stand-in)", "NULL-key mask", "get_matched_indices (non-paged) loop"]
 EXPLANATION = "The paged chain walk proved to return exactly the next min(remaining, len) rows of the chain and an offset from which the remainder of the same chain is produced (lemma_resume: pages concatenate to the unpaged sequence)."
+
+KANI = [dict(package="datafusion-physical-plan", module="physical_plan/join_hash_map.rs", timeout=2400, harnesses=[
+    dict(name="c14_paged_lookup_bounded_chained_forward", complete=False, bound="build [10,10,20,30] inserted forward, probe [10,20,30,20] (concrete); symbolic NULL mask, page size 1..=6; JoinHashMapU32",
+         what="update_from_iter + get_matched_indices_with_limit_offset in a paging loop == reference (every non-NULL probe row x every equal-hash build row exactly once, in chain order), for every page size and NULL mask"),
+    dict(name="c14_paged_lookup_bounded_chained_reversed_u64", complete=False, bound="build [7,9,7,9,7] inserted in reverse (hash-join build order), probe [9,7,5,7]; symbolic NULL mask, page size 1..=6; JoinHashMapU64; contain_hashes checked",
+         what="same, reversed insertion, 64-bit index map, plus membership test agrees with the build side"),
+    dict(name="c14_paged_lookup_bounded_unique_keys", complete=False, bound="build [1,2,3] (unique keys fast path), probe [3,1,4,2]; symbolic NULL mask, page size 1..=6",
+         what="unique-key fast path agrees with the reference"),
+])]
+TRUSTED += ["Kani 0.68 / CBMC 6.11 for the bounded map-API harnesses (hashbrown executed concretely)"]
